@@ -513,6 +513,7 @@ type editOpts struct {
 	SuffixAlias   bool
 	BackslashDoc  bool
 	StructFields  bool // single-file: give `type Resolver struct{}` fields
+	GroupScaffold bool // put one generated `type xResolver struct{ *Resolver }` into a `type ( ... )` group behind a user type
 	ScaffoldEdit  bool // give one generated `type xResolver struct{ *Resolver }` a field (and adapt its accessor)
 }
 
@@ -770,11 +771,26 @@ func editFiles(r *rand.Rand, files map[string]*fileInfo, opts editOpts) (*editRe
 				g.use("scaffold_struct_and_accessor_modified")
 			}
 		}
+		grouped := ""
+		if opts.GroupScaffold && !scaffoldDone && scaffold == "" {
+			for _, d := range fi.Decls {
+				if d.Kind == "type" && isResolverStruct(d.Name) {
+					grouped = d.Name
+				}
+			}
+			if grouped != "" {
+				scaffoldDone = true
+				g.use("scaffold_struct_grouped_behind_a_user_type")
+			}
+		}
 		for i, d := range fi.Decls {
 			for _, h := range at[i] {
 				b.WriteString(h.Text + "\n\n")
 			}
 			switch {
+			case grouped != "" && d.Kind == "type" && d.Name == grouped:
+				// what "group declarations" of an IDE leaves: the user's type first, the generated one after it
+				fmt.Fprintf(&b, "type (\n\thg%[1]d struct {\n\t\tseen map[string]int // user type\n\t}\n\t%[2]s struct{ *Resolver }\n)", g.id(), grouped)
 			case scaffold != "" && d.Kind == "type" && d.Name == scaffold:
 				fmt.Fprintf(&b, "type %s struct {\n\t*Resolver\n\tmemo map[string]int // user field }\n}", scaffold)
 			case scaffold != "" && d.Kind == "othermethod" && strings.Contains(d.Full, "&"+scaffold+"{r}"):
